@@ -129,6 +129,14 @@ def step_id(item) -> int:
     raise ValueError("step marker field not found")
 
 
+def safe_steps(seq):
+    """[step ids] of one full iteration, or a string naming the exception that escaped"""
+    try:
+        return [step_id(x) for x in seq]
+    except Exception as e:
+        return f"raised-out:{type(e).__name__}"
+
+
 def drive(seq, G, hist, calls_of=None):
     """run the history on G generators of `seq`; -> list of [g, event, calls]"""
     gens = [iter(seq) for _ in range(G)]
@@ -142,6 +150,8 @@ def drive(seq, G, hist, calls_of=None):
             ev = "stop"
         except IndexError:
             ev = "raise"
+        except Exception as e:
+            ev = f"raised-out:{type(e).__name__}"
         calls = "".join(calls_of.calls[before:]) if calls_of is not None else None
         out.append([g, ev, calls])
     return out
@@ -185,7 +195,8 @@ def check_iter(ctx, case, got, rep, with_calls):
                 ctx.mismatch(case, view_i, view_m, "FieldDataSequence.__iter__ history vs Fc.runHist")
             if case.get("final_cur") is not None and int(cur) != case["final_cur"]:
                 ctx.mismatch(case, case["final_cur"], int(cur), "source cursor after the history")
-    if case["style"] == "sequential" and n >= 1:
+    groups = [g for g, _ in itertools.groupby(case["hist"])]
+    if len(set(groups)) == len(groups) and n >= 1:      # no generator is resumed after another one was advanced
         exp = oracle_sequential(n, case["G"], case["hist"])
         if [[g, ev] for g, ev, _ in got] != exp:
             ctx.violation(case, [[g, ev] for g, ev, _ in got], exp, cls=None,
@@ -222,8 +233,8 @@ def part_I(ctx, files):
             ctx.violation(case, seq.number_of_steps, n, what="number_of_steps of a .pvd")
         if k % 7 == 0:
             # observe_at: list(read(pvd)) twice
-            l1 = [step_id(x) for x in seq]
-            l2 = [step_id(x) for x in seq]
+            l1 = safe_steps(seq)
+            l2 = safe_steps(seq)
             if l1 != list(range(n)) or l2 != l1:
                 ctx.violation(case, [l1, l2], list(range(n)), what="list(read(pvd)) repeated")
         cases.append(case); gots.append(got); withc.append(False)
@@ -262,6 +273,8 @@ def run_compare_stub(case):
         suite = comp._compare_field_sequences(res, ref)
     except IndexError:
         return {"kind": "R", "pairs": pairs}
+    except Exception as e:
+        return {"kind": f"raised-out:{type(e).__name__}", "pairs": pairs}
     log_steps = [[int(a), int(b)] for a, b in STEP_RE.findall(out.getvalue())]
     return {"kind": "S", "bool": bool(suite), "status": suite.status.name, "tests": [t.status.name for t in suite],
             "pairs": pairs, "log": log_steps}
@@ -641,8 +654,8 @@ def part_X(ctx):
         for n in (1, 2, 3, 4):
             write(f"ref{n}.xdmf", set(), n)
             seq = fio.read(f"ref{n}.xdmf")
-            l1 = [step_id(x) for x in seq]
-            l2 = [step_id(x) for x in seq]
+            l1 = safe_steps(seq)
+            l2 = safe_steps(seq)
             ctx.case(("X-iter", n), tags=["X-xdmf-iter"])
             if l1 != list(range(n)) or l2 != l1 or seq.number_of_steps != n:
                 ctx.violation({"part": "X", "n": n}, [l1, l2], list(range(n)), what="XDMF sequence iteration")
@@ -725,6 +738,11 @@ def replay_case(ctx, c):
             else:
                 got = drive(fio.read(files.pvd([(s, 0) for s in range(c["n"])])), c["G"], c["hist"])
                 wc = False
+                seq = fio.read(files.pvd([(s, 0) for s in range(c["n"])]))
+                l1, l2 = safe_steps(seq), safe_steps(seq)
+                print("replay: list(read(pvd)) twice:", l1, l2)
+                if l1 != list(range(c["n"])) or l2 != l1:
+                    ctx.violation(c, [l1, l2], list(range(c["n"])), what="list(read(pvd)) repeated")
             line = f"c15iter {c['n']} {c['cur0']} {c['G']} {len(c['hist'])} " + " ".join(map(str, c["hist"]))
             rep = ctx.lean([line.strip()])[0] if ctx.driver_ok else None
             print("replay: impl", got)
